@@ -4,6 +4,10 @@ From C02 Require Import Model ModelTx ProofsNodes ProofsBorders ProofsLeaf Proof
 Import ListNotations.
 Open Scope N_scope.
 
+Section WithMatcher.
+Context {tm : Matcher}.
+
+
 (* ---------------------------------------------------------------- inverser *)
 Lemma upd_length : forall l i v, length (upd l i v) = length l.
 Proof. induction l as [|h t IH]; intros [|i] v; simpl; auto. Qed.
@@ -266,7 +270,7 @@ Proof.
   { intros l [_ H]. unfold two32, max_u32 in *. lia. }
   constructor; cbn [touch a_mids a_rids a_all a_keys a_tl]; [exact Im|exact Ir| | |exact Ik].
   - apply get_ok; auto.
-  - intros t. destruct (existsb (fun p => pat_match p t) (leaf_pats q)); auto.
+  - intros t. destruct (existsb (fun p => tok_match p t) (leaf_pats q)); auto.
     apply get_ok; auto. intros l H. apply Ba. eapply tok_sem_bound; eauto.
 Qed.
 
@@ -295,3 +299,5 @@ Qed.
 
 Corollary inv_script ops : N.of_nat (length (docs_of ops)) + 1 < two32 -> Inv (run ops) (docs_of ops).
 Proof. intros B. apply (inv_run ops a_init []); [apply inv_init|exact B]. Qed.
+
+End WithMatcher.
